@@ -39,6 +39,17 @@ PROPS = {
         "real": REAL_STORE, "stub": STUB_STORE,
         "assumptions": ["clock advances >= 1 ns between operations"],
     },
+    "C05": {
+        "level": "exploration",
+        "level_text": "seeded search over interleavings: 2-4 writer tasks (batches, multi-dataset transactions naming datasets in different orders), reader tasks and a dataset-manager task run under a cooperative scheduler that decides every context switch at the verif hook points (lock acquire, commit boundaries, per-entity loop); deadlock is a scheduler state, serialisability and atomic visibility are checked by replaying the committed writes in observed commit order through the reference model.",
+        "level_note": "interleavings are explored at hook-point granularity only (code between two hooks runs atomically); datasets the manager task creates/deletes/renames are excluded from the equality comparison; Go runtime scheduling of goroutines blocked outside hooks is not controlled",
+        "technique": SIM + "; cooperative seeded scheduler over lock/commit hook points, wait-for-graph deadlock detection, serial replay in witness commit order",
+        "profiles": [{"name": "C05", "quick": 2000, "thorough": 60000}],
+        "chunk": 40, "timeout": 180,
+        "rule": "C05 profile: generated task sets (writers, readers, manager) with a PRNG-drawn schedule (preemption probability swarm-varied 2-50%) recorded into the scenario; non-trivial = at least 2 commits and at least 1 preemption between tasks; distinct = distinct hash of the scheduler event trace (task, hook point, lock)",
+        "real": REAL_STORE, "stub": STUB_STORE + ["goroutine scheduling at hook points (cooperative scheduler)"],
+        "assumptions": ["context switches happen only at verif hook points", "commit order = order of the afterDataCommit hook events"],
+    },
 }
 
 # properties without a registered check yet, with the reason (kept current by hand)
